@@ -798,12 +798,40 @@ class Lib:
             return v
         raise self.E.Unsupported("seq() of this value")
 
+    def sp_tfop(self, st, node):
+        from .streams import _sp_tfop
+        return _sp_tfop(self, st, node)
+
+    def sp_tfcall(self, st, node):
+        from .streams import _sp_tfcall
+        return _sp_tfcall(self, st, node)
+
+    def sp_lam(self, st, node):
+        from .streams import _sp_lam
+        return _sp_lam(self, st, node)
+
+    def sp_thunk(self, st, node):
+        from .streams import _sp_thunk
+        return _sp_thunk(self, st, node)
+
     def sp_ite_stream(self, st, node):
         eng = self.eng
         c = eng.truthy(st, eng.eval(st, node.args[0]))
         a = eng.eval(st, node.args[1])
         b = eng.eval(st, node.args[2])
         return VStream(z3.If(c, a.t, b.t))
+
+    def sp_boolu(self, st, node):
+        tf = [m for m in self.ext.models if type(m).__name__ == "TFModel"][0]
+        return VU(tf.to_u(st, self.eng.eval(st, node.args[0])))
+
+    def sp_tfcall_u(self, st, node):
+        from .streams import _sp_tfcall
+        v = _sp_tfcall(self, st, node)
+        if isinstance(v, VStream):
+            tf = [m for m in self.ext.models if type(m).__name__ == "TFModel"][0]
+            return VU(tf.to_u(st, v))
+        return v
 
     def sp_None_U(self, st, node):
         return VU(NONE_U)
@@ -900,6 +928,12 @@ class Lib:
             if kwargs or len(args) != 1:
                 raise E.Unsupported("opaque callable with != 1 positional arg")
             return self.apply_opaque(st, fv, args[0], node.lineno)
+        if isinstance(fv, VRef):
+            fc = eng.reg.find_method(fv.cls, "__call__")
+            if fc is not None:
+                args, kwargs = eng.eval_args(st, node)
+                return self.apply_contract(st, fc, fv, args, kwargs,
+                                           node.lineno)
         if isinstance(fv, VFunc) and isinstance(fv.bound, ast.Lambda):
             return self.ext.call_lambda(st, fv, node)
         if isinstance(fv, VFunc) and fv.bound is not None and fv.name:
@@ -1167,8 +1201,12 @@ class Lib:
                 st.locals = dict(env)
                 eng.oblige(st, f"decreases({fc.qualname})", line,
                            z3.And(callee_m >= 0, callee_m < caller_m), None)
-            term = eng.spec_eval(st, summ["result"])
             S = st.fresh("S_" + fc.method_name, sm.STREAM)
+            if summ.get("result") is None:
+                out = VStream(S)
+                out.elem = summ.get("elem", "U")
+                return out
+            term = eng.spec_eval(st, summ["result"])
             if summ.get("exact"):
                 st.assume(S == term.t)
             else:
@@ -1200,7 +1238,10 @@ class Lib:
         caller = eng.cur
         if caller is not None and fc.method_name in caller.at_call:
             merged = dict(saved_locals)
-            merged.update(env)
+            for k_, v_ in env.items():
+                merged["callee_" + k_] = v_
+                if k_ not in merged:
+                    merged[k_] = v_
             st.locals = merged
             try:
                 for k, cl in enumerate(caller.at_call[fc.method_name]):
@@ -1494,8 +1535,12 @@ class Lib:
         if not isinstance(lam, ast.Lambda):
             raise self.E.Unsupported("forall needs a lambda")
         sorts = {}
+        pats_src = None
         for kw in node.keywords:
-            sorts[kw.arg] = kw.value.value
+            if kw.arg == "pats":
+                pats_src = ast.literal_eval(kw.value)
+            else:
+                sorts[kw.arg] = kw.value.value
         names = [a.arg for a in lam.args.args]
         saved = dict(st.locals)
         vs = []
@@ -1507,9 +1552,21 @@ class Lib:
             st.locals[n] = self.spec_wrap(st, shape, c)
         try:
             body = eng.truthy(st, eng.eval(st, lam.body))
+            pats = []
+            for p in pats_src or []:
+                items = p if isinstance(p, (list, tuple)) else [p]
+                terms = []
+                for it in items:
+                    v = eng.eval(st, eng.spec_parse(it))
+                    terms.append(v.ms if isinstance(v, VList) else v.t)
+                pats.append(z3.MultiPattern(*terms) if len(terms) > 1
+                            else terms[0])
         finally:
             st.locals = saved
-        return VBool(z3.ForAll(vs, body) if forall else z3.Exists(vs, body))
+        if forall:
+            return VBool(z3.ForAll(vs, body, patterns=pats) if pats
+                         else z3.ForAll(vs, body))
+        return VBool(z3.Exists(vs, body))
 
     def sp_forall(self, st, node):
         return self._quant(st, node, True)
